@@ -236,6 +236,21 @@ class C11(Check):
         plan["db_locked_run_meta"] = rng.random() < 0.1
         plan["net_seed"] = rng.getrandbits(30)
         plan["segment"] = rng.choice(["whole", "random"])
+        # state race: the tester-present worker's requests queue behind session changes whose reply takes its time
+        # (responsePending first), so "the client's view before the request" differs between call time and transmission time
+        plan["state_race"] = False
+        offered = sorted(set(services.get(1, {}).get(0x10) or []) & set(services) - {1})
+        if offered and rng.random() < 0.1:
+            plan["state_race"] = True
+            seq_ = []
+            for _ in range(rng.choice([4, 8, 14])):
+                seq_.append(bytes([0x10, rng.choice(offered + [1])]).hex() if rng.random() < 0.6 else rng.choice(["22f186", "22f190", "3e00"]))
+            plan["history"] = [{"pdu": p_, "max_retry": 0, "timeout": 0.3, "analyze": False} for p_ in seq_ if p_ != "3e00"]
+            plan["outcomes"] = ["pending"] * (2 * len(seq_) + 2)
+            plan["tp"] = 0.05
+            plan["db_lat"] = 0.0005
+            plan["db_locked"] = []
+            plan["db_locked_run_meta"] = False
         plan["backlog"] = 0
         if index % 400 == 200:
             # a long run against a database far slower than the ECU: more than a thousand rows are waiting in the writer queue
@@ -628,6 +643,9 @@ class C11(Check):
                 want_mode = "emphasized" if c["analyze"] else "implicit"
                 if mode != want_mode:
                     violation(res, "C11/mode", f"C11/mode:{mode}-want-{want_mode}", f"row {rid}: log_mode {mode}, expected {want_mode}")
+            if c is None and "seq" in x["x"] and x["x"].get("state") is not None and json.loads(state) != x["x"]["state"]:
+                # requests of other tasks (tester-present worker, setup code): the view when THEIR request went on the wire
+                violation(res, "C11/state", "C11/state:differs:other-task", f"row {rid} request {rq} (task {x['x']['actor']}): state {state} but the client's view when the request went on the wire was {x['x']['state']}")
             if x["must_absent"]:
                 violation(res, "C11/rows", "C11/rows:recorded-while-logging-off", f"row {rid} ({rq}) was recorded although implicit logging was switched off")
         rest = [x for x in expected[i:] if not x["optional"]]
@@ -664,6 +682,8 @@ class C11(Check):
             bump(res["probes"], "over_1000_rows_queued_when_the_run_was_interrupted")
         if plan.get("backlog"):
             bump(res["faults"], "database_far_slower_than_the_ecu")
+        if plan.get("state_race"):
+            bump(res["faults"], "tester_present_queued_behind_slow_session_changes")
         if world.sql.orphaned:
             bump(res["probes"], "db_ops_completed_after_caller_cancelled", world.sql.orphaned)
 
